@@ -124,8 +124,10 @@ Arguments e_source {ustate}. Arguments e_exit {ustate}. Arguments e_user {ustate
 Arguments record {ustate}. Arguments exit_on {ustate}. Arguments set_cst {ustate}.
 
 (* ---- utils/eval.rs eval_instructions and the AliasCommand wrapper ------------------------- *)
-Definition msg_goto_label : str :=   (* "goto label result not supported in alias command flow." — only its kind matters *)
-  [103;111;116;111;32;108;97;98;101;108]%N.
+Definition msg_goto_label : str :=   (* "goto label result not supported in alias command flow." — the literal of the source,
+     in full since builder B11: EvalGenTie.v proves eval_instructions EQUAL to the translation of eval.rs *)
+  [103;111;116;111;32;108;97;98;101;108;32;114;101;115;117;108;116;32;110;111;116;32;115;117;112;112;111;114;116;101;100;32;
+   105;110;32;97;108;105;97;115;32;99;111;109;109;97;110;100;32;102;108;111;119;46]%N.
 Definition msg_invalid_args : str := [73;110;118;97;108;105;100;32;97;114;103;115]%N.
 Definition msg_leak : str := [108;101;97;107]%N.
 
